@@ -22,7 +22,7 @@ import time
 
 VERIF = '/verif'
 COQ = os.path.join(VERIF, 'coq')
-REPO = '/repo'
+REPO = os.environ.get('VERIF_REPO', '/repo')
 CASES = os.path.join(COQ, 'cases')
 BUILD = os.path.join(VERIF, 'build')
 COQC_TIMEOUT = 600
